@@ -123,6 +123,9 @@ theorem countStep_progress (E : Env) (s : PS) (hs : s.pos < E.pat.length) :
     wp (countStep E) (fun _ s' => AdvC E (s.pos + 1) s s') (AdvC E (s.pos + 1) s) s :=
   wp_countStep E s hs
 
+/-- non-vacuity: the pre-scan of `(` from position 0: one rune consumed, the options pushed -/
+example : ∃ s', countStep (env0 [40]) {} = .ok () s' ∧ s'.pos = 1 ∧ s'.optionsStack.length = 1 := ⟨_, rfl, rfl, rfl⟩
+
 /-- **The capture pre-scan is total**: from any position inside the pattern, with any fuel above the
     number of runes left, `countCaptures` returns its tables or an `ErrorCode` (`duplicateGroupName`,
     `captureGroupOutOfRange`, …) — no fault (in particular `assignNameSlots` never indexes an empty
@@ -169,6 +172,10 @@ theorem scanRegex_total (E : Env) (s : PS) (hs : s.pos ≤ E.pat.length) (hu : s
     (hl : s.optionsStack.length = s.stack.length) (n : Nat) (hn : E.pat.length - s.pos < n) :
     wp (scanRegex E n) (fun _ _ => True) (fun _ => True) s :=
   wp_scanRegex E s hs hu hl n hn
+
+/-- non-vacuity: the main scan of `a|b` from the state `Parse` starts it in returns the root Capture -/
+example : ∃ r s', scanRegex (env0 [97, 124, 98]) 4 { g := { caps := [0], captop := 1, autocap := 1 } } = .ok r s' ∧
+    r.t = .capture ∧ s'.pos = 3 := ⟨_, _, rfl, rfl, rfl⟩
 
 /-- **C10 for the parser: `Parse` is total.**  For every pattern (any list of runes), every option
     set, `MaintainCaptureOrder` flag and every oracle, the parser model with the fuel `length + 1` that
